@@ -57,6 +57,21 @@ class CSym:
             raise SymFail("pshufb is not a uniform byte rotation")
         return T.rotr(8 * ks.pop(), x)
 
+    def shufflevector(self, vals):
+        """__builtin_shufflevector(a, b, i0..i15) on bytes of one operand: a whole-dword byte rotation (lane-generic)"""
+        T = self.T
+        a, b, idx = vals[0], vals[1], [T.cval(x) for x in vals[2:]]
+        if a != b or len(idx) != 16 or any(i is None for i in idx):
+            raise SymFail("shufflevector form")
+        ks = set()
+        for pos, src in enumerate(idx):
+            if pos // 4 != src // 4:
+                raise SymFail("shufflevector crosses 32-bit lanes")
+            ks.add((src - pos) % 4)
+        if len(ks) != 1:
+            raise SymFail("shufflevector is not a uniform byte rotation")
+        return T.rotr(8 * ks.pop(), a)
+
     def intrinsic(self, name, args):
         T = self.T
         if re.fullmatch(r"_mm(256|512)?_add_epi32", name):
@@ -84,6 +99,28 @@ class CSym:
         m = re.fullmatch(r"_mm(256|512)?_setr_epi8", name)
         if m:
             return tuple(args)
+        # ---- NEON (lane-generic view: one 32-bit lane)
+        if name in ("vaddq_u32",):
+            return T.add(args[0], args[1])
+        if name in ("veorq_u32",):
+            return self.xor(args[0], args[1])
+        if name in ("vorrq_u32",):
+            return T.bor(args[0], args[1])
+        if name.startswith("vreinterpretq_"):
+            return args[0]
+        if name == "vrev32q_u16":
+            return T.rotr(16, args[0])
+        if name in ("__builtin_neon_vshlq_n_v", "__builtin_neon_vshrq_n_v"):
+            n = T.cval(args[1])
+            if n is None:
+                raise SymFail("shift count not constant")
+            return T.mk("shl" if "vshl" in name else "shr", n, args[0])
+        if name == "__builtin_neon_vsriq_n_v":
+            a, b, n = args[0], args[1], T.cval(args[2])
+            ta = T.rev[a] if isinstance(a, int) else None
+            if n is None or not ta or ta[0] != "shl" or ta[1] < 32 - n:
+                raise SymFail("vsri whose first operand does not have its low bits clear")
+            return T.bor(a, T.mk("shr", n, b))        # the kept top bits of a are all of a: insert == or
         if name in ("__builtin_ia32_pshuflw", "_mm_shufflelo_epi16"):
             return T.mk("pshuflw", T.cval(args[1]), args[0])
         if name in ("__builtin_ia32_pshufhw", "_mm_shufflehi_epi16"):
@@ -188,6 +225,8 @@ class CSym:
             raise SymFail("deref of non-pointer")
         if k == "cast":
             return self.lv(e[1], env, depth)
+        if k == "member":
+            return self.lv(e[1], env, depth)      # single-field aggregates (uint32x4x2_t.val): the field is the value
         raise SymFail("lvalue %s" % k)
 
     def binop(self, op, a, b):
@@ -257,6 +296,20 @@ class CSym:
             return self.call(e[1], args, depth)
         if k == "init":
             return tuple(self.ev(x, env, depth) for x in e[1])
+        if k == "un" and e[1] == "__extension__":
+            return self.ev(e[2], env, depth, want_ptr)
+        if k == "stmtexpr":
+            inner = dict(env)             # shares the outer cells, its own declarations stay local
+            stmts = list(e[1])
+            last = stmts[-1] if stmts and stmts[-1][0] == "expr" else None
+            r = self.block(stmts[:-1] if last else stmts, inner, depth)
+            if r:
+                raise SymFail("return inside a statement expression")
+            return self.ev(last[1], inner, depth) if last else T.const(0)
+        if k == "shufflevector":
+            return self.shufflevector([self.ev(x, env, depth) for x in e[1]])
+        if k == "member":
+            return self.ev(e[1], env, depth, want_ptr)
         if k == "cond":
             c = T.cval(self.ev(e[1], env, depth))
             if c is None:
